@@ -38,6 +38,8 @@ def run(ctx):
     vlib.binding_selftest(ctx, "Trace_Parser.tla", "Trace_Parser.cfg", tr, [("entry-dropped", drop_entry), ("value-changed", change_value)])
     ctx.add("evaluations", res3["runs"])
     ctx.add("distinct_nontrivial", res3["nontrivial"])
+    if ctx.tier == "thorough":
+        vlib.vacuity_check(ctx, "MC_Parser.tla", "MC_Parser_wf_quick.cfg", expect_zero=('ScanPartial', 'ScanFails', 'ReturnScanError', 'SilentTruncate'))
     return vlib.finish(
         ctx, "model_checking",
         rule="(1) every line of <= 5 characters over an 11-symbol alphabet (and <= 6..8 over 9 symbols for the theorems): TLC checks the "
